@@ -73,31 +73,103 @@ def tail_ops(regions):
             reads_everywhere(regions) + [{"op": "sync", "r": 0}, {"op": "sync", "r": 0}])
 
 
-def scenarios(regions):
-    """Scenario macros (the shapes of RaftStore.tla's counterexamples and of the ReadIndex argument): isolate the
-    leader, elect another store, write at both, read at both, heal - for every choice of old and new leader."""
+def isolate_scenario(regions, r, old, new, wait):
+    """Isolate the leader, elect another store, write at both, read at both, heal.  With wait the read at the
+    deposed leader is left parked for longer than ReadCommand's 3 s ReadIndex budget before anything else happens."""
+    k1, k2 = KEYS[r]
+    third = [s for s in STORES if s not in (old, new)][0]
+    q = sorted([new, third])
+    ops = [{"op": "vote", "s": x, "r": y["id"], "q": STORES} for y in regions for x in [old if y["id"] == r else new]]
+    ops += [{"op": "sync", "r": 0, "q": STORES},
+            {"op": "propose", "s": old, "r": r, "k": k1}, {"op": "sync", "r": r, "q": STORES},
+            {"op": "read", "s": old, "r": r, "k": k1}, {"op": "sync", "r": r, "q": STORES},
+            {"op": "partition", "a": [old], "b": q},
+            {"op": "propose", "s": old, "r": r, "k": k2},            # stays pending at the isolated leader
+            {"op": "vote", "s": new, "r": r, "q": q}, {"op": "sync", "r": r, "q": q},
+            {"op": "propose", "s": new, "r": r, "k": k1}, {"op": "sync", "r": r, "q": q},
+            {"op": "read", "s": old, "r": r, "k": k1}]               # deposed leader that has not noticed
+    if wait:
+        ops.append({"op": "wait", "n": 3400})
+    ops += [{"op": "read", "s": new, "r": r, "k": k1}, {"op": "sync", "r": r, "q": q},
+            {"op": "tick", "s": old, "r": r, "n": 2},
+            {"op": "propose", "s": new, "r": r, "k": k2}, {"op": "sync", "r": r, "q": q}]
+    return {"kind": "scenario-isolate" + ("-wait" if wait else ""), "stores": STORES, "regions": regions, "ops": ops + tail_ops(regions)}
+
+
+def delayed_acks_scenario(regions, r, old, new):
+    """The heartbeat acknowledgements of a read round are delayed in the network; meanwhile another store is elected
+    and acknowledges a write; a second read is issued at the old leader; then the delayed acknowledgements arrive."""
+    k1 = KEYS[r][0]
+    third = [s for s in STORES if s not in (old, new)][0]
+    q = sorted([new, third])
+    ops = [{"op": "vote", "s": old, "r": y["id"], "q": STORES} for y in regions]
+    ops += [{"op": "sync", "r": 0, "q": STORES},
+            {"op": "propose", "s": old, "r": r, "k": k1}, {"op": "sync", "r": r, "q": STORES},
+            {"op": "read", "s": old, "r": r, "k": k1},
+            {"op": "push", "r": r, "s": old, "f": third, "ack": False, "hold": True},
+            {"op": "push", "r": r, "s": old, "f": new, "ack": False, "hold": True},
+            {"op": "vote", "s": new, "r": r, "q": q}, {"op": "sync", "r": r, "q": q},
+            {"op": "propose", "s": new, "r": r, "k": k1}, {"op": "sync", "r": r, "q": q},
+            {"op": "read", "s": old, "r": r, "k": k1},
+            {"op": "push", "r": r, "s": third, "f": old, "ack": False, "hold": True},
+            {"op": "push", "r": r, "s": new, "f": old, "ack": False, "hold": True}]
+    return {"kind": "scenario-delayed-acks", "stores": STORES, "regions": regions, "ops": ops + tail_ops(regions)}
+
+
+def race_scenario(regions, r, leader, slow):
+    """Two committed commands reach a follower in separate messages; the follower's peer is stepped by two
+    goroutines while its applier is slow on the first command."""
+    k1 = KEYS[r][0]
+    third = [s for s in STORES if s not in (leader, slow)][0]
+    q = sorted([leader, third])
+    ops = [{"op": "vote", "s": leader, "r": y["id"], "q": STORES} for y in regions]
+    ops += [{"op": "sync", "r": 0, "q": STORES},
+            {"op": "propose", "s": leader, "r": r, "k": k1}, {"op": "sync", "r": r, "q": q},
+            {"op": "propose", "s": leader, "r": r, "k": k1}, {"op": "sync", "r": r, "q": q},
+            {"op": "race", "s": slow, "r": r},
+            {"op": "propose", "s": leader, "r": r, "k": k1}, {"op": "sync", "r": r, "q": STORES}]
+    return {"kind": "scenario-race", "stores": STORES, "regions": regions, "ops": ops + tail_ops(regions)}
+
+
+def scenarios(quick, rng):
+    """Scenario macros (the shapes of RaftStore.tla's counterexamples and of the ReadIndex argument), for every choice
+    of the stores involved in the thorough tier, a sample in the quick tier (always with the adjacent store ids 2 and 3
+    as old and new leader once)."""
+    pairs = [(a, b) for a in STORES for b in STORES if a != b]
     out = []
-    for r in [x["id"] for x in regions]:
-        k1, k2 = KEYS[r]
-        for old in STORES:
-            for new in STORES:
-                if new == old:
-                    continue
-                third = [s for s in STORES if s not in (old, new)][0]
-                q = sorted([new, third])
-                ops = [{"op": "vote", "s": x, "r": y["id"], "q": STORES} for y in regions for x in [old if y["id"] == r else new]]
-                ops += [{"op": "sync", "r": 0, "q": STORES},
-                        {"op": "propose", "s": old, "r": r, "k": k1}, {"op": "sync", "r": r, "q": STORES},
-                        {"op": "read", "s": old, "r": r, "k": k1}, {"op": "sync", "r": r, "q": STORES},
-                        {"op": "partition", "a": [old], "b": q},
-                        {"op": "propose", "s": old, "r": r, "k": k2},            # stays pending at the isolated leader
-                        {"op": "vote", "s": new, "r": r, "q": q}, {"op": "sync", "r": r, "q": q},
-                        {"op": "propose", "s": new, "r": r, "k": k1}, {"op": "sync", "r": r, "q": q},
-                        {"op": "read", "s": old, "r": r, "k": k1},               # deposed leader that has not noticed
-                        {"op": "read", "s": new, "r": r, "k": k1}, {"op": "sync", "r": r, "q": q},
-                        {"op": "tick", "s": old, "r": r, "n": 2},
-                        {"op": "propose", "s": new, "r": r, "k": k2}, {"op": "sync", "r": r, "q": q}]
-                out.append({"kind": "scenario", "stores": STORES, "regions": regions, "ops": ops + tail_ops(regions)})
+    if quick:
+        adj = [(2, 3), (3, 2)]
+        rng.shuffle(adj)
+        out.append(isolate_scenario(REGIONS1, 1, adj[0][0], adj[0][1], True))    # the one wall-clock scenario of the quick tier
+        out.append(isolate_scenario(REGIONS1, 1, adj[1][0], adj[1][1], False))
+        out.append(isolate_scenario(REGIONS1, 1, *rng.choice([p for p in pairs if p not in adj]), False))
+        for _ in range(2):
+            out.append(isolate_scenario(REGIONS2, rng.choice([1, 2]), *rng.choice(pairs), False))
+        out.append(delayed_acks_scenario(REGIONS1, 1, *rng.choice(pairs)))
+        out.append(race_scenario(REGIONS1, 1, *rng.choice(pairs)))
+        return out
+    for old, new in pairs:
+        out.append(isolate_scenario(REGIONS1, 1, old, new, True))
+        for r in (1, 2):
+            out.append(isolate_scenario(REGIONS2, r, old, new, False))
+        out.append(delayed_acks_scenario(REGIONS1, 1, old, new))
+        out.append(delayed_acks_scenario(REGIONS2, 2, old, new))
+        out.append(race_scenario(REGIONS1, 1, old, new))
+    return out
+
+
+def permute(sched, m):
+    """The same schedule with the stores renamed."""
+    def f(v):
+        return [m[x] for x in v] if isinstance(v, list) else m[v]
+    ops = []
+    for o in sched["ops"]:
+        o = dict(o)
+        for k in ("s", "f", "q", "a", "b"):
+            if k in o and o[k] is not None:
+                o[k] = sorted(f(o[k])) if k == "q" else f(o[k])
+        ops.append(o)
+    out = dict(sched); out["ops"] = ops
     return out
 
 
@@ -296,18 +368,17 @@ def run(ctx):
     nrand = 16 if quick else 160
     for i in range(nrand):
         scheds.append(random_sched(len(scheds), REGIONS2 if i % 2 else REGIONS1, rng, rng.choice([60, 100, 160])))
-    scen = scenarios(REGIONS1) + scenarios(REGIONS2)
-    if quick:
-        rng.shuffle(scen)
-        scen = scen[:6]
+    scen = scenarios(quick, rng)
     for sc in scen:
         sc["id"] = len(scheds); scheds.append(sc)
     replay_ids = {}
     for rp in json.load(open(os.path.join(VERIF, "findings", "raftstore_replays.json"))):
         if pid in rp["properties"]:
-            s = dict(rp["schedule"]); s["id"] = len(scheds); s["kind"] = "replay"
-            replay_ids[s["id"]] = rp["id"]
-            scheds.append(s)
+            # as recorded (stores 1 and 2 collide) and with the stores renamed (the adjacent ids 2 and 3 collide)
+            for ren in ({1: 1, 2: 2, 3: 3}, {1: 2, 2: 3, 3: 1}):
+                s = permute(rp["schedule"], ren); s["id"] = len(scheds); s["kind"] = "replay"
+                replay_ids[s["id"]] = rp["id"]
+                scheds.append(s)
     ctx.log("M2: %d TLC behaviours -> %d schedules (%d TLC-derived, %d random, %d scenario macros, %d recorded replays)" % (len(hists), len(scheds), len(chosen), nrand, len(scen), len(replay_ids)))
     traces = run_driver(ctx, scheds)
     order = sorted(traces)
@@ -317,6 +388,24 @@ def run(ctx):
     for sid in order:
         if traces[sid][-1]["e"] != "Closed":
             raise Undecided("schedule %d did not run to completion: %s" % (sid, json.dumps(traces[sid][-1])[:400]))
+    # implementation fact (drift only, never a verdict): request ids drawn by different stores / incarnations are distinct
+    drift = 0
+    for sid in order:
+        drawn = {}
+        for e in traces[sid]:
+            if e["e"] == "Parked" and e.get("rid"):
+                drawn.setdefault(e["rid"], set()).add((e["s"], e.get("inc", 0)))
+            elif e["e"] == "ReadRet" and e["res"] == "ok" and e.get("hrid"):
+                drawn.setdefault(e["hrid"], set()).add((e["s"], 0))
+        dup = {k: v for k, v in drawn.items() if len({x[0] for x in v}) > 1 or len(v) > 1 and all(x[1] for x in v)}
+        if dup:
+            drift += 1
+            if drift <= 3:
+                k = sorted(dup)[0]
+                print("DRIFT family=RaftStore at=request-id-drawn-twice schedule=%d id=%d by=%s" % (sid, k, sorted(dup[k])), flush=True)
+    if drift:
+        ctx.notes.append("DRIFT: request ids drawn by two stores / incarnations coincide in %d schedules" % drift)
+    aligned = sum(1 for sid in order if traces[sid][0].get("aligned"))
     proj = [project(pid, traces[s]) for s in order]
     tl = [p[0] for p in proj]
     m1 = join_m1()
@@ -409,12 +498,13 @@ def run(ctx):
         "samples": [{"schedule": scheds[sample_sid], "first_events": tl[0][:14]}],
         "m1": m1, "events_validated": nevents, "rejected": len(rejected), "known_finding_hits": classes, "cluster_activity": stats,
         "schedules": {"tlc_derived": len(chosen), "random": nrand, "scenario_macros": len(scen), "recorded_replays": len(replay_ids)},
-        "negative_control": "rejected as required",
+        "negative_control": "rejected as required", "request_id_drift_schedules": drift,
+        "clusters_with_stores_started_in_one_ms": aligned,
         "checker_cmd": "tlc -config %s RaftStore.tla ; tlc -config RaftPropTrace.cfg RaftPropTrace.tla" % M1[(pid, ctx.tier)][0][0],
     }, assumptions=[
         "etcd-raft is trusted: RaftStore.tla abstracts it (atomic elections by a quorum, whole-log replication, commit rule); its messages are real in M2/M3",
         "3 stores, 1-2 regions, fixed membership (no conf change, split or merge), clean restarts only (crash restarts are C21's subject)",
-        "one scheduler thread: store-internal goroutine interleavings beyond the parked client calls are not explored",
+        "one scheduler thread; the only intra-store concurrency explored is the parked client calls and the two-stepper / slow-applier race op",
         "after a clean restart a store applies its log again from the start; 'applied exactly once' is judged on log positions",
         "TLC results hold for the constants in the cfg files",
     ])
